@@ -86,7 +86,8 @@ CLAIM = dict(
     text='Each tree-surgery primitive of token.c, run by CBMC from an arbitrary sibling chain that satisfies the structural invariant '
          '(doubly linked, source order, spans inside the parent, mates symmetric), re-establishes that invariant and leaves no freed token '
          'reachable, for all shapes/types/spans within the bound; an inductive step, so it covers surgery sequences of any length. The '
-         'compile-time relations between the public token enums and the library tables are decided exhaustively.',
+         'compile-time relations between the public token enums and the library tables are decided exhaustively.  Line stripping (all block kinds x '
+         'line-kind pairs) and the tokeniser driver over an abstract lexer are proved to keep every token, in order, in a well-formed chain that tiles the source range.',
     note='trusted: CBMC; K<=3/4 tokens per chain, one nesting level; whole-document trees are outside the claim',
     technique='CBMC bounded model checking: one-step inductive invariant preservation for token.c primitives + exhaustive enum-relation assertions',
 )
